@@ -29,7 +29,7 @@ m = {
     "setup_cmd": "/venv/bin/python -c \"import sys; sys.path.insert(0,'/repo'); import ascmhl, lxml, pathspec, xxhash, requests, os; assert os.access('/dev/shm', os.W_OK); print('ok')\"",
     "hooks": {
         "guard": "ASCMHL_VERIF",
-        "enable": "no source hooks: every seam is patched from outside inside a forked child per command (builtins.open, os.*, datetime, time, platform.node, requests.get, threading.Thread); ascmhl is imported from /repo's working tree on every run",
+        "enable": "no source hooks: every seam is patched from outside inside a forked child per command (builtins.open, os.*, datetime, time, platform.node, requests.get, threading.Thread and locks created by ascmhl modules, sys.settrace for line-level pre-emption); ascmhl is imported from /repo's working tree on every run",
         "baseline_off_cmd": "cd /repo && /venv/bin/python -m pytest -ra -q -p no:cacheprovider --timeout=900 --continue-on-collection-errors",
         "source_commits": [],
         "add_only": True,
